@@ -24,4 +24,16 @@
 #define WV_GHOST(...)
 #define WV_CUT(...)
 #endif
+/*
+ * WV_SCHED(n): scheduling point for replaying a verifier-found interleaving
+ * against the real code.  Only with -DWENCRY_VERIF_SCHED (used by the replay
+ * drivers under /verif/replay) does it call wv_sched(n), which the driver
+ * defines (e.g. to delay one thread); otherwise it expands to nothing.
+ */
+#ifdef WENCRY_VERIF_SCHED
+extern "C" void wv_sched(int point);
+#define WV_SCHED(n) wv_sched(n)
+#else
+#define WV_SCHED(n)
+#endif
 #endif
